@@ -310,6 +310,85 @@ func runC05(e *core.Env, n int) {
 	}
 	pending = nil
 
+	// a send that the client side itself rejects (the message cannot be encoded), then CloseSend and a receive: the
+	// half-close still ends the request stream, so the handler (which consumes it and answers) and the client finish
+	// on their own - nothing has to be cancelled
+	e.Cases("close-after-rejected-send", e.N(12, 100), func(i int, r *rand.Rand) {
+		c := carriers[i%2]
+		kind := pick(r, ClientStream, Bidi)
+		sc := &Script{Kind: kind, RecvAfterSend: true}
+		for k := r.Intn(3); k > 0; k-- {
+			sc.Sender = append(sc.Sender, Op{Op: "send", Msg: &tpb.Message{Payload: []byte("fine")}})
+		}
+		sc.Sender = append(sc.Sender, Op{Op: "send", Msg: &tpb.Message{Headers: map[string][]byte{"bad\xffkey": []byte("v")}}}, Op{Op: "close"})
+		sc.Handler = []Op{{Op: "recvall"}, {Op: "send", Msg: &tpb.Message{Payload: []byte("answer")}}}
+		sc.Receiver = []Op{{Op: "recvall"}}
+		run := c.Svc.NewRun(sc, c.Name)
+		defer c.Svc.Forget(run)
+		done := make(chan struct{})
+		go func() {
+			run.Exec(c.CC, nil, 120*time.Second)
+			close(done)
+		}()
+		fin, stuck, dump := waitDoneOrStuck(done, 60*time.Second)
+		e.Eval(c.Name+"|close-after-rejected-send|"+kind.String(), true)
+		if !fin {
+			if stuck {
+				e.Violate(c.Name+"/"+kind.String()+"/deadlock/close-after-rejected-send", "a SendMsg was rejected by the client side itself, then CloseSend and RecvMsg: the request stream never ended, handler and client wait for each other: "+parkedSummary(dump), map[string]any{"script": sc, "events": run.Events(), "goroutines": trunc(dump, 20000)})
+			} else {
+				e.Inconclusive("C05 close-after-rejected-send %s: watchdog without a stable park", c.Name)
+			}
+			forceEnd(run, done)
+			return
+		}
+		for _, ev := range run.Events() {
+			if ev.Pan != "" {
+				e.Violate(c.Name+"/"+kind.String()+"/panic/"+ev.Who+"."+ev.Op, trunc(ev.Pan, 500), map[string]any{"script": sc})
+				break
+			}
+		}
+		run.Cancel()
+	})
+
+	// a single-response method whose handler sends a surplus response, sets a trailer and fails; the client has
+	// asked for the headers (so that the handler could put its second response into the stream and return) and
+	// receives only after the handler has returned. The call is left alone afterwards: nothing of it may remain
+	e.Cases("surplus-after-handler-returned", e.N(8, 60), func(i int, r *rand.Rand) {
+		c := carriers[0]
+		sc := &Script{Kind: ClientStream}
+		sc.Sender = []Op{{Op: "send", Msg: &tpb.Message{Payload: []byte("q")}}, {Op: "close"}}
+		sc.Handler = []Op{{Op: "recvall"}, {Op: "send", Msg: &tpb.Message{Payload: []byte("one")}}, {Op: "send", Msg: &tpb.Message{Payload: []byte("two")}}}
+		if r.Intn(2) == 0 {
+			sc.Handler = append(sc.Handler, Op{Op: "settrl", MD: metadata.MD{"t": {"v"}}})
+		}
+		if r.Intn(2) == 0 {
+			sc.Ret = Ret{How: "status", Code: uint32(1 + r.Intn(16)), Msg: "failed after responding twice"}
+		}
+		sc.Receiver = []Op{{Op: "header"}, {Op: "gate", Gate: "handler-returned"}, {Op: "recv"}, {Op: "recv"}}
+		run := c.Svc.NewRun(sc, c.Name)
+		done := make(chan struct{})
+		go func() {
+			run.Exec(c.CC, nil, 120*time.Second)
+			close(done)
+		}()
+		select {
+		case <-run.handlerDone:
+			e.Count("surplus_handler_returned_first", 1)
+		case <-time.After(5 * time.Second):
+		}
+		run.Release("handler-returned")
+		if fin, _, _ := waitDoneOrStuck(done, 60*time.Second); !fin {
+			e.Inconclusive("C05 surplus-after-handler-returned: client did not finish")
+			forceEnd(run, done)
+			return
+		}
+		e.Eval("surplus-after-handler-returned|"+sc.Shape(), true)
+		// (not cancelled: the leak monitor must see what remains without the help of cancellation)
+		checkLeaks(e, "after a completed call whose handler had sent a surplus response and returned before the client received")
+		run.Cancel()
+		c.Svc.Forget(run)
+	})
+
 	// unary calls whose handler uses the metadata operations (through grpc.SetHeader / SendHeader / SetTrailer with
 	// its context, the only way a unary handler has), several of them and in any order: the call completes by
 	// itself, and nothing of it remains afterwards (the leak monitor below sees a handler left inside the library)
